@@ -140,9 +140,10 @@ def str_contracts(pairs=True):
             if not raw and len(combo) == 2:
                 # pairs: all 36 under the short double-quoted style; a representative subset under one long style; single atoms under every style
                 if (prefix, q) == ("", '"'):
-                    pass
+                    if combo == ("U", "U"):
+                        continue      # the one costly pairing (16 symbolic hex digits): U is paired with every other kind, both orders
                 elif (prefix, q) == ("", "'''"):
-                    if combo[0] == combo[1]:
+                    if "U" in combo or combo[0] == combo[1]:
                         continue
                 else:
                     continue
